@@ -12,9 +12,11 @@
            "edit"     the body of an existing note changed (no new id) -> one edit operation when noticed
            "title" "label" "state"                    -> one operation each, carrying the event id
            "desc"     a "changed the description" note -> one edit operation carrying the note id, if the text differs *)
-EXTENDS Integers, Sequences, FiniteSets
+EXTENDS Integers, Sequences, FiniteSets, SequencesExt
 
-CONSTANTS Issue, Margin
+CONSTANTS Issue, Margin,
+          StopAtFirst    \* the events of an issue are imported up to the first one that cannot be (TRUE: the code as it is now;
+                         \* FALSE: the pinned tree, which went on with the following ones - the witness configuration)
 
 VARIABLES now,        \* tracker time
           tracker,    \* [i -> [exists, upd, events (Seq of [id, kind, note]), bodyv (note id -> version), descv]]
@@ -22,16 +24,21 @@ VARIABLES now,        \* tracker time
           local,      \* [i -> [known, ids (set of event ids recorded), bodyv (note id -> version seen), descv, nedits]]
           cursor,
           res,        \* outcome of the last round
-          grown       \* the tracker changed since the last round without error (history)
+          grown,      \* the tracker changed since the last round without error (history)
+          known       \* tracker users whose identity has been imported (a user is looked up once: GET /users/:id)
 
-vars == <<now, tracker, nextid, local, cursor, res, grown>>
+vars == <<now, tracker, nextid, local, cursor, res, grown, known>>
+
+Users == {1, 2}
+IssueAuthor(i) == 1 + (i % 2)
+AuthorOf(kind, id) == CASE kind \in {"comment", "title"} -> 1 + (id % 2) [] kind = "label" -> 1 [] OTHER -> 2
 
 NoIssue == [exists |-> FALSE, upd |-> 0, events |-> <<>>, bodyv |-> <<>>, descv |-> 0]
-NoLocal == [known |-> FALSE, ids |-> {}, bodyv |-> <<>>, descv |-> 0, nedits |-> 0, title0 |-> 0]
+NoLocal == [known |-> FALSE, ids |-> {}, bodyv |-> <<>>, descv |-> 0, nedits |-> 0, title0 |-> 0, lasttitle |-> 0]
 
 Init == /\ now = 10 /\ nextid = 1 /\ cursor = 0
         /\ tracker = [i \in Issue |-> NoIssue] /\ local = [i \in Issue |-> NoLocal]
-        /\ res = [kind |-> "none"] /\ grown = FALSE
+        /\ res = [kind |-> "none"] /\ grown = FALSE /\ known = {}
 
 Ids(evs) == {evs[k].id : k \in DOMAIN evs}
 
@@ -42,7 +49,8 @@ MaxOf(S) == CHOOSE x \in S : \A y \in S : y <= x
 TitleIds(T) == {T.events[k].id : k \in {x \in DOMAIN T.events : T.events[x].kind = "title"}}
 LastTitle(T) == IF TitleIds(T) = {} THEN 0 ELSE MaxOf(TitleIds(T))
 KindOfId(T, id) == LET S == {k \in DOMAIN T.events : T.events[k].id = id} IN IF S = {} THEN "none" ELSE T.events[CHOOSE k \in S : TRUE].kind
-CurTitle(L, T) == LET rec == TitleIds(T) \cap L.ids IN IF rec = {} THEN L.title0 ELSE MaxOf(rec)
+(* ... in the order they were imported: the title event recorded last (lasttitle), whatever its place in the tracker's history *)
+CurTitle(L, T) == IF L.lasttitle = 0 THEN L.title0 ELSE L.lasttitle
 
 (* ---- the tracker changes; `stamp` is the tracker time of the change (now, or just before the next round) ---- *)
 NewIssue(i) ==
@@ -50,24 +58,24 @@ NewIssue(i) ==
   /\ tracker' = [tracker EXCEPT ![i] = [exists |-> TRUE, upd |-> now, events |-> <<>>, bodyv |-> <<>>, descv |-> 0]]
   /\ now' = now + 1
   /\ grown' = TRUE
-  /\ UNCHANGED <<nextid, local, cursor, res>>
+  /\ UNCHANGED <<nextid, local, cursor, res, known>>
 
 AddEvent(i, kind) ==
   /\ tracker[i].exists /\ kind \in {"comment", "title", "label", "state", "desc"}
-  /\ tracker' = [tracker EXCEPT ![i].events = Append(@, [id |-> nextid, kind |-> kind]),
+  /\ tracker' = [tracker EXCEPT ![i].events = Append(@, [id |-> nextid, kind |-> kind, au |-> AuthorOf(kind, nextid)]),
                                 ![i].upd = now,
                                 ![i].bodyv = IF kind = "comment" THEN Append(@, [id |-> nextid, v |-> 0]) ELSE @,
                                 ![i].descv = IF kind = "desc" THEN @ + 1 ELSE @]
   /\ nextid' = nextid + 1 /\ now' = now + 1
   /\ grown' = TRUE
-  /\ UNCHANGED <<local, cursor, res>>
+  /\ UNCHANGED <<local, cursor, res, known>>
 
 EditNote(i, k) ==
   /\ tracker[i].exists /\ k \in DOMAIN tracker[i].bodyv
   /\ tracker' = [tracker EXCEPT ![i].bodyv[k].v = @ + 1, ![i].upd = now]
   /\ now' = now + 1
   /\ grown' = TRUE
-  /\ UNCHANGED <<nextid, local, cursor, res>>
+  /\ UNCHANGED <<nextid, local, cursor, res, known>>
 
 (* ---- one import round ---- *)
 Listed == {i \in Issue : tracker[i].exists /\ tracker[i].upd > cursor}
@@ -77,26 +85,35 @@ VersionOf(bv, id) == LET S == {k \in DOMAIN bv : bv[k].id = id} IN IF S = {} THE
 
 EndpointOf(kind) == CASE kind \in {"comment", "title", "desc"} -> "notes" [] kind = "label" -> "labels" [] kind = "state" -> "states"
 
-(* import of issue i when the listing of `skip` (an endpoint, or "" for none) fails: its events are not seen *)
-ImportIssueSkipping(i, skip) ==
+(* import of issue i when only the events at the positions `seen` are processed (the others were not listed, or were left for
+   the next run) *)
+ImportIssueSeen(i, seen) ==
   LET T == tracker[i] L == local[i]
-      seen == {k \in DOMAIN T.events : EndpointOf(T.events[k].kind) # skip}
-      newids == {T.events[k].id : k \in seen} \ L.ids
+      SeenIds == {T.events[k].id : k \in seen}
+      newids == SeenIds \ L.ids
       (* description notes are recorded only when the text differs at that moment: the first unrecorded one catches up *)
       descnotes == {T.events[k].id : k \in {x \in seen : T.events[x].kind = "desc"}} \ L.ids
       ldescv == IF L.known THEN L.descv ELSE T.descv        \* a new bug is created with the current description
       takeDesc == IF descnotes # {} /\ ldescv # T.descv THEN {CHOOSE d \in descnotes : \A e \in descnotes : d <= e} ELSE {}
       recorded == (newids \ descnotes) \cup takeDesc
-      (* notes already recorded whose body moved on: one edit operation each (only when the notes were listed) *)
-      edited == IF skip = "notes" THEN {} ELSE
-                {k \in DOMAIN T.bodyv : T.bodyv[k].id \in L.ids /\ VersionOf(L.bodyv, T.bodyv[k].id) # T.bodyv[k].v}
+      (* notes already recorded whose body moved on: one edit operation each (only for the notes processed) *)
+      edited == {k \in DOMAIN T.bodyv : /\ T.bodyv[k].id \in SeenIds /\ T.bodyv[k].id \in L.ids
+                                        /\ VersionOf(L.bodyv, T.bodyv[k].id) # T.bodyv[k].v}
+      newtitles == {T.events[k].id : k \in {x \in seen : T.events[x].kind = "title"}} \ L.ids
   IN [known |-> TRUE, ids |-> L.ids \cup recorded,
-      bodyv |-> IF skip = "notes" THEN L.bodyv ELSE T.bodyv,
+      bodyv |-> [k \in DOMAIN T.bodyv |-> IF T.bodyv[k].id \in SeenIds THEN T.bodyv[k]
+                                          ELSE [id |-> T.bodyv[k].id, v |-> VersionOf(L.bodyv, T.bodyv[k].id)]],
       descv |-> IF takeDesc # {} \/ ~L.known THEN T.descv ELSE L.descv,
       nedits |-> L.nedits + Cardinality(edited),
-      title0 |-> IF L.known THEN L.title0 ELSE LastTitle(T)]
+      title0 |-> IF L.known THEN L.title0 ELSE LastTitle(T),
+      lasttitle |-> IF newtitles = {} THEN L.lasttitle ELSE MaxOf(newtitles)]   \* within a run events are imported in their order
 
-ImportIssue(i) == ImportIssueSkipping(i, "")
+AllEvents(i) == DOMAIN tracker[i].events
+(* the listing of `skip` (an endpoint, or "" for none) fails: its events are not seen *)
+SeenSkipping(i, skip) == {k \in AllEvents(i) : EndpointOf(tracker[i].events[k].kind) # skip}
+ImportIssueSkipping(i, skip) == ImportIssueSeen(i, SeenSkipping(i, skip))
+ImportIssue(i) == ImportIssueSeen(i, AllEvents(i))
+AuthorsSeen(i, seen) == {IssueAuthor(i)} \cup {tracker[i].events[k].au : k \in seen}
 
 (* a new issue is created with its current description: nothing to catch up *)
 RoundClean ==
@@ -104,6 +121,7 @@ RoundClean ==
   /\ cursor' = now - Margin
   /\ res' = [kind |-> "round", error |-> FALSE, advanced |-> TRUE, listed |-> Listed]
   /\ now' = now + 10 /\ grown' = FALSE
+  /\ known' = known \cup UNION {AuthorsSeen(i, AllEvents(i)) : i \in Listed}
   /\ UNCHANGED <<tracker, nextid>>
 
 (* a request failed: an error is reported, the cursor stays.  Listing the issues fails: nothing is imported.  Listing one
@@ -116,6 +134,28 @@ RoundFailedAt(class, i) ==
   /\ cursor' = cursor
   /\ res' = [kind |-> "round", error |-> TRUE, advanced |-> FALSE, listed |-> Listed]
   /\ now' = now + 10 /\ grown' = TRUE      \* what the failed round missed is still to be caught up
+  /\ known' = IF class = "issues" THEN known
+              ELSE known \cup UNION {AuthorsSeen(j, IF j = i THEN SeenSkipping(i, class) ELSE AllEvents(j)) : j \in Listed}
+  /\ UNCHANGED <<tracker, nextid>>
+
+(* the lookup of user u fails (GET /users/u): it happens only while u is not known.  Issues are processed in the order of the
+   listing (by time of last change).  A new issue opened by u cannot be created: the run ends there.  An event by u cannot be
+   imported: it is left for the next run - and, with StopAtFirst, so are the events of the issue that follow it (imported before
+   it, they would come before it in the bug's history for good: an older title change applied after a newer one) *)
+ListedSeq == SetToSortSeq(Listed, LAMBDA a, b : tracker[a].upd < tracker[b].upd)
+AbortAt(u) == LET S == {p \in DOMAIN ListedSeq : ~local[ListedSeq[p]].known /\ IssueAuthor(ListedSeq[p]) = u}
+              IN IF S = {} THEN Len(ListedSeq) + 1 ELSE CHOOSE p \in S : \A q \in S : p <= q
+Processed(u) == {ListedSeq[p] : p \in {q \in DOMAIN ListedSeq : q < AbortAt(u)}}
+UserSeen(i, u) == LET bad == {k \in AllEvents(i) : tracker[i].events[k].au = u}
+                  IN IF StopAtFirst THEN {k \in AllEvents(i) : \A j \in bad : k < j} ELSE AllEvents(i) \ bad
+UserHit(u) == AbortAt(u) <= Len(ListedSeq) \/ \E i \in Processed(u) : \E k \in AllEvents(i) : tracker[i].events[k].au = u
+RoundFailedUser(u) ==
+  /\ u \notin known /\ UserHit(u)
+  /\ local' = [i \in Issue |-> IF i \in Processed(u) THEN ImportIssueSeen(i, UserSeen(i, u)) ELSE local[i]]
+  /\ known' = (known \cup UNION {AuthorsSeen(i, UserSeen(i, u)) : i \in Processed(u)}) \ {u}
+  /\ cursor' = cursor
+  /\ res' = [kind |-> "round", error |-> TRUE, advanced |-> FALSE, listed |-> Listed]
+  /\ now' = now + 10 /\ grown' = TRUE
   /\ UNCHANGED <<tracker, nextid>>
 
 (* ---- properties ---- *)
